@@ -33,7 +33,8 @@ const (
 
 func TestMain(m *testing.M) {
 	slog.SetDefault(slog.New(slog.NewTextHandler(io.Discard, nil))) // the distributed runner logs every query
-	evid.Rule("row multisets of 0-24 rows: fresh rows over small alphabets (3 interfaces, 3 host names, 3 host ids, 9 addresses incl. IPv4/IPv6/IPv4-mapped/unspecified/invalid, 4 instants incl. 'no time label', counters from a small set so that primary keys tie) " +
+	evid.Rule("distributed-limit: rows with distinct keys (0-16 from the generator below, or 101-300 derived rows with frequent ties) spread over 1-3 stub hosts of the real distributed.QueryRunner, sort by bytes/packets in every direction, limits around the row count and around the cap of 100 on streamed partial results; the final rows of Run and RunStreaming must be the first `limit` rows of the reference order. " +
+		"row multisets of 0-24 rows: fresh rows over small alphabets (3 interfaces, 3 host names, 3 host ids, 9 addresses incl. IPv4/IPv6/IPv4-mapped/unspecified/invalid, 4 instants incl. 'no time label', counters from a small set so that primary keys tie) " +
 		"and rows derived from an earlier row by changing exactly one thing (location of the instant, host id only, host name, interface, instant, one attribute, or nothing = duplicate) or the location together with host name / interface; rows with equal labels and attributes carry equal counters (as in an aggregated result). " +
 		"Mode 'including': instants in Local/UTC/shared fixed zones/freshly allocated fixed zones (what JSON decoding produces) and free host ids; mode 'excluding': one *time.Location per case and the host id a function of the host name. " +
 		"All SortOrder in {packets, bytes, time} x Direction in {sum, in, out, both} x ascending; limits 0..n+1; statements are made by Args.Prepare. " +
